@@ -671,9 +671,11 @@ def oracle_ss(cfg, p, ob, assembled=True):
 # ------------------------------------------------------------------------------------------------
 # exactness guard: may the floats of a correct implementation be compared bit-for-bit with the model?
 # ------------------------------------------------------------------------------------------------
-def dyadic_ok(x, bits=40):
+def dyadic_ok(x):
+    """dyadic with denominator <= 2^24 and |x| < 2^20: products with the small step operators and their partial sums
+    then stay below 53 bits, whatever the summation order of the BLAS"""
     d = x.denominator
-    return d & (d - 1) == 0 and abs(x.numerator).bit_length() <= bits and d.bit_length() <= bits
+    return d & (d - 1) == 0 and d.bit_length() <= 25 and abs(x) < 2 ** 20
 
 
 def exact_safe_td(cfg, p):
@@ -1496,7 +1498,7 @@ def run(ctx):
                                "the law A x = b is checked on every entry to 1e-9 per component",
                                "scipy.interpolate.interp1d(kind='quadratic') / RectBivariateSpline enter the model as the table of the call they answered; "
                                "node-exactness is checked on every entry; the oracle compares with an independent B-spline interpolation to 1e-7",
-                               "floating rounding is not modelled: cases whose exact arithmetic stays within 40 bits are compared bit-for-bit, the others within 1e-9/1e-12"])
+                               "floating rounding is not modelled: cases whose exact arithmetic stays dyadic with denominator <= 2^24 and magnitude < 2^20 are compared bit-for-bit, the others within 1e-9/1e-12"])
 
 
 # ------------------------------------------------------------------------------------------------
